@@ -139,18 +139,22 @@ class Register:
 
     def __eq__(self, other):
         try:
-            if self.name != other.name:
-                return False
-            if self.fundamental != other.fundamental:
-                # A register never equals an alias, even one of the same size
-                return False
-            if self.fundamental:
-                return self.size == other.size
-            else:
-                return (
-                    self.alias_from == other.alias_from
-                    and self.alias_slice == other.alias_slice
-                )
+            # Both chains of aliases are walked side by side in a loop: a
+            # chain may be longer than the interpreter lets calls nest.
+            mine, theirs = self, other
+            while True:
+                if mine.name != theirs.name:
+                    return False
+                if mine.fundamental != theirs.fundamental:
+                    # A register never equals an alias, even one of the same size
+                    return False
+                if mine.fundamental:
+                    return mine.size == theirs.size
+                if mine.alias_slice != theirs.alias_slice:
+                    return False
+                mine, theirs = mine.alias_from, theirs.alias_from
+                if not (isinstance(mine, Register) and isinstance(theirs, Register)):
+                    return mine == theirs
         except AttributeError:
             return False
 
